@@ -391,6 +391,9 @@ def run(report, prog, tier):
     # (answered with R(NAK)), not as ProtocolError (which ends the exchange): the mapping obligations of C13-R2, reported as C12-R8
     from . import c13
     report.run_as({'C13-R2': 'C12-R8'}, c13.rule_mapping, prog)
+    # ... and below the block layer the frontend hands each block to the driver once (C04-R6), reported as C12-R6
+    from . import c04
+    report.run_as({'C04-R6': 'C12-R6'}, c04.rule_frontend_once, prog)
     report.trusted += ['ISO/IEC 14443-4 block formats (PCB values), FSCI table', 'clf.exchange raises only CommunicationError subclasses or IOError (C13)']
     report.assumptions += ['the card model (at-most-once execution) is out of reach of a static rule']
 
